@@ -14,7 +14,7 @@
 (* emit is judged by the same oracle.                                                 *)
 EXTENDS Naturals, Sequences, FiniteSets, TLC, Json, CSV, Str
 
-CONSTANTS MaxLen
+CONSTANTS MaxLen, RandN, RandLen
 
 Vocab == [ atoms |-> [ sl |-> "/", bs |-> "\\", tab |-> "\t", sp |-> " ", lf |-> "\n", dot |-> ".", dd |-> "..", seg |-> "path",
                        evil |-> "evil.com", good |-> "good.example.com", look |-> "evilexample.com", at |-> "@", col |-> ":", port |-> "8443", p80 |-> "80", p443 |-> "443", q |-> "?", h |-> "#",
@@ -71,12 +71,26 @@ LastAt(a) == LastIndexOf(a, "at")
 GoUserinfo(a) == IF LastAt(a) = 0 THEN <<>> ELSE Take(a, LastAt(a) - 1)
 GoHostPort(a) == Drop(a, LastAt(a))
 \* host:port -> the port is what follows the last ':' if that is empty or digits; otherwise the whole thing is the host
+\* (the scheme tokens end in ':' as well: inside an authority that colon separates a port like any other)
+SchemeTok == {"http", "https", "HTTPS", "hTtP"}
+V6Tok == {"v6", "v6map"}                   \* bracketed literals: they contain colons themselves
+LastColon(hp) == LET I == {i \in 1..Len(hp) : hp[i] = "col" \/ hp[i] \in SchemeTok \/ (i > 1 /\ hp[i] \in V6Tok)} IN IF I = {} THEN 0 ELSE CHOOSE i \in I : \A j \in I : j <= i
 GoSplit(hp) ==
-    LET c == LastIndexOf(hp, "col") IN
+    IF hp # <<>> /\ hp[1] \in V6Tok
+    THEN \* "[...]" first: what follows the bracket must be an optional port
+         LET rest == Tail(hp) IN
+         IF rest = <<>> \/ rest = <<"col">> THEN [host |-> <<hp[1]>>, port |-> "", ok |-> TRUE]
+         ELSE IF Len(rest) = 2 /\ rest[1] = "col" /\ rest[2] \in PortTok THEN [host |-> <<hp[1]>>, port |-> rest[2], ok |-> TRUE]
+         ELSE [host |-> hp, port |-> "bad", ok |-> FALSE]
+    ELSE
+    LET c == LastColon(hp) IN
     IF c = 0 THEN [host |-> hp, port |-> "", ok |-> TRUE]
-    ELSE LET p == Drop(hp, c) IN
-         IF p = <<>> THEN [host |-> Take(hp, c - 1), port |-> "", ok |-> TRUE]
-         ELSE IF Len(p) = 1 /\ p[1] \in PortTok THEN [host |-> Take(hp, c - 1), port |-> p[1], ok |-> TRUE]
+    ELSE IF hp[c] \in V6Tok THEN [host |-> hp, port |-> "bad", ok |-> FALSE]      \* the last colon lies inside the literal: "1]..." is no port
+    ELSE LET p == Drop(hp, c)
+             h == IF hp[c] = "col" THEN Take(hp, c - 1) ELSE Take(hp, c)
+         IN
+         IF p = <<>> THEN [host |-> h, port |-> "", ok |-> TRUE]
+         ELSE IF Len(p) = 1 /\ p[1] \in PortTok THEN [host |-> h, port |-> p[1], ok |-> TRUE]
          ELSE [host |-> hp, port |-> "bad", ok |-> FALSE]              \* "invalid port" is a parse error
 GoParsesOK(s) ==
     LET rest == Drop(s, 3)   a == GoAuthority(rest)   hp == GoHostPort(a) IN
@@ -144,6 +158,13 @@ Init == \E wl \in WLs :
         \/ MaxLen >= 5 /\ \E a \in T, b \in T, d \in T, e \in T, f \in T : c = [s |-> <<a, b, d, e, f>>, wl |-> wl]
         \/ MaxLen >= 6 /\ \E a \in T, b \in T, d \in T, e \in T, f \in T, g \in T : c = [s |-> <<a, b, d, e, f, g>>, wl |-> wl]
 Next == UNCHANGED c
+\* random longer strings: a plausible head followed by RandLen tokens drawn from the whole alphabet (TLC's RandomElement, reproducible
+\* with -seed); RandN draws per head and whitelist shape
+AllTokens == Tokens \cup {"port", "p80", "p443", "HTTPS", "hTtP", "v6", "v6map"}
+Heads == { <<>>, <<"sl">>, <<"sl", "sl">>, <<"sl", "bs">>, <<"bs", "sl">>, <<"http", "sl", "sl">>, <<"https", "sl", "sl">>, <<"https", "sl", "sl", "good">>,
+           <<"https", "sl", "sl", "good", "col">>, <<"https", "sl", "sl", "evil", "at", "good">>, <<"sl", "seg", "sl">>, <<"https", "sl", "bs">>, <<"hTtP", "sl", "sl">> }
+InitRandom == \E k \in 1..RandN, hd \in Heads, wl \in WLs, n \in 1..RandLen :
+                 c = [s |-> hd \o [j \in 1..n |-> RandomElement(AllTokens)], wl |-> wl]
 C06_NoOpenRedirect == Impl_Valid(c.s, c.wl) => Safe(BrowserResolve(c.s), c.wl)
 
 \* a plain same-site path and query: where the user lands after login, byte for byte
